@@ -108,6 +108,11 @@ class Contract(object):
         senv.update(self.spec_env)
         senv.update(env)
         caller = it.target.name if it.target else '?'
+        # which contracts the proof of the caller leans on: assumed ones are reported as assumptions
+        used = getattr(it.target, '_callees_used', None)
+        if used is not None:
+            used[self.name] = ('assumed' + (': ' + self.trusted_note if self.trusted_note else '')) if self.assumed \
+                else 'verified separately'
         for k, src in self.olds.items():
             senv[k] = it.eval_spec(src, senv)
         for label, src in self.requires:
@@ -140,6 +145,7 @@ class Contract(object):
         t0 = time.time()
         fn = extract.get_function(self.ident)
         report = FunctionReport(self, fn)
+        self._callees_used = {}
         spec_env = dict(self.spec_env)
         loops = {}
         for k, ls in self.loops.items():
@@ -297,6 +303,8 @@ class FunctionReport(object):
             'undecided': len(by.get('undecided', [])),
             'solver_seconds': round(r.solver_seconds, 3),
             'seconds': round(self.seconds, 3),
+            'callee_contracts_used': dict(getattr(self.contract, '_callees_used', {}) or {}),
+            'abstraction': getattr(self.contract, 'abstraction', None),
         }
 
 
